@@ -218,7 +218,13 @@ Record invocation := {
 
 (* the tag the lookup returned, without surrounding white space (the cache file is line-oriented) *)
 Definition trim (s : list ascii) : list ascii := drop_spaces (rstrip s).
-Definition fetched (i : invocation) : option (list ascii) := option_map trim (fetch i).
+(* a tag that is not a single line (after trimming) is no tag: like a failed lookup *)
+Definition is_eol (c : ascii) : bool := (Nat.eqb (nat_of_ascii c) 10 || Nat.eqb (nat_of_ascii c) 13)%bool.
+Definition fetched (i : invocation) : option (list ascii) :=
+  match option_map trim (fetch i) with
+  | Some t => if existsb is_eol t then None else Some t
+  | None => None
+  end.
 
 (* on-disk cache: None = missing/unreadable.  Returns (notices printed, disk') *)
 Definition check_for_updates (disk : option cache) (i : invocation) : list Z * option cache :=
